@@ -531,9 +531,11 @@ func (w *c03World) doAccept(id string, data []byte, ws int64) bool {
 	undo := w.plantFault(id, ws)
 	cp := append([]byte{}, data...)
 	done := make(chan struct{})
+	buf := w.buf
 	go func() {
 		defer close(done)
-		w.buf.Accept(base.LogChunk{ID: id, Data: cp, Saved: false})
+		defer func() { recover() }() // an Accept left blocked panics when Destroy closes the channel
+		buf.Accept(base.LogChunk{ID: id, Data: cp, Saved: false})
 	}()
 	// generous the first time (a loaded machine must not raise a false alarm), short once Accept is known to block
 	patience := 60 * time.Second
